@@ -522,3 +522,53 @@ B('c05b_add_bound_method_literal_default', ['C05'], 'R05.i',
   (A, _ADD_DEFAULT, "        kwargs.setdefault('inherit_slashes', True)\n"),
   (A, "        if callable(getattr(rf, 'bind_all', None)):\n            bound_routes = rf.bind_all(self, **kwargs)\n",
       "        bind_all = getattr(rf, 'bind_all', None)\n        if callable(bind_all):\n            bound_routes = bind_all(self, **kwargs)\n"))
+
+# ---- tenth batch: R05.g -- the joined list built in two stages (a list of fragment lists filled by the loop, every element joined
+# once after it); R05.e -- build_converter read in the module it lives in when route.py imports it back ---------------------------------
+_SI = 'clastic/sinter.py'
+_SINTER_IMPORT = "from .sinter import inject, get_arg_names, get_fb, get_callable_name\n"
+_STAGED_HEAD = "def _compile_path_pattern(pattern, mode=S_REWRITE):\n    chunks = []\n    var_converter_map = {}\n"
+_STAGED_APPEND = "            chunks.append([part])\n"
+_STAGED_GLUE = "        chunks[-1].append(path_seg_pattern)\n"
+_STAGED_FLAT = "    processed = [''.join(fragments) for fragments in chunks]\n"
+
+
+def _staged(head=_STAGED_HEAD, append=_STAGED_APPEND, glue=_STAGED_GLUE, flat=_STAGED_FLAT):
+    return [(R, _CPP_HEAD, head), (R, _APPEND, append), (R, _GLUE, glue + flat)]
+
+
+T('c05t_staged_fragment_lists', ['C05'], *_staged())
+T('c05t_staged_fragment_lists_by_map', ['C05'], *_staged(flat="    processed = list(map(''.join, chunks))\n"))
+T('c05t_staged_fragment_lists_generator_and_flag', ['C05'],
+  *(_staged(flat="    processed = list(''.join(fragments) for fragments in chunks)\n") +
+    [(R, _SEP, "    strict = mode == S_STRICT\n    sep = '/' if strict else '/+'\n"),
+     (R, _TRIM, "    if not strict and not processed[-1]:\n        processed = processed[:-1]\n")]))
+B('c05b_staged_literal_part_lowercased', ['C05'], 'R05.g', *_staged(append="            chunks.append([part.lower()])\n"))
+B('c05b_staged_literal_part_with_extra_fragment', ['C05'], 'R05.g', *_staged(append="            chunks.append([part, '/'])\n"))
+B('c05b_staged_empty_literal_part_skipped', ['C05'], 'R05.g', *_staged(append="            if part:\n                chunks.append([part])\n"))
+B('c05b_staged_segment_opens_its_own_chunk', ['C05'], 'R05.g', *_staged(glue="        chunks.append([path_seg_pattern])\n"))
+B('c05b_staged_segment_replaces_the_chunk', ['C05'], 'R05.g', *_staged(glue="        chunks[-1] = [path_seg_pattern]\n"))
+B('c05b_staged_segment_added_to_first_chunk', ['C05'], 'R05.g', *_staged(glue="        chunks[0].append(path_seg_pattern)\n"))
+B('c05b_staged_fragments_joined_with_slash', ['C05'], 'R05.g', *_staged(flat="    processed = ['/'.join(fragments) for fragments in chunks]\n"))
+B('c05b_staged_nonempty_chunks_only', ['C05'], 'R05.g', *_staged(flat="    processed = [''.join(fragments) for fragments in chunks if fragments[0]]\n"))
+B('c05b_staged_flattened_before_the_loop', ['C05'], 'R05.g',
+  *(_staged(flat="") + [(R, _FOR_PART, _STAGED_FLAT + _FOR_PART)]))
+B('c05b_staged_chunks_shared_between_calls', ['C05'], 'R05.g',
+  *_staged(head="def _compile_path_pattern(pattern, mode=S_REWRITE, chunks=[]):\n    var_converter_map = {}\n"))
+B('c05b_staged_last_chunk_dropped_before_flattening', ['C05'], 'R05.g', *_staged(flat="    chunks.pop()\n" + _STAGED_FLAT))
+B('c05b_staged_trim_also_in_strict_mode', ['C05'], 'R05.g',
+  *(_staged() + [(R, _TRIM, "    if not processed[-1]:\n        processed = processed[:-1]\n")]))
+B('c05b_staged_extra_element_after_flattening', ['C05'], 'R05.g', *_staged(flat=_STAGED_FLAT + "    processed.append('')\n"))
+
+_MOVED = [(R, _BUILD_DEF, ""), (R, _SINTER_IMPORT, _SINTER_IMPORT + "from .sinter import build_converter\n")]
+T('c05t_build_converter_moved_to_another_module', ['C05'], *(_MOVED + [(_SI, 're:\\Z', "\n\n" + _BUILD_DEF)]))
+T('c05t_converter_class_moved_to_another_module', ['C05'], *(_MOVED + [(_SI, 're:\\Z', "\n\n" + _BUILD_CLASS)]))
+B('c05b_moved_single_converter_keeps_separator', ['C05'], 'R05.e',
+  *(_MOVED + [(_SI, 're:\\Z', "\n\n" + _BUILD_DEF.replace("converter(value.replace('/', ''))", "converter(value)"))]))
+B('c05b_moved_multi_converter_keeps_leading_empty', ['C05'], 'R05.e',
+  *(_MOVED + [(_SI, 're:\\Z', "\n\n" + _BUILD_DEF.replace("value.split('/')[1:]", "value.split('/')"))]))
+B('c05b_moved_selection_inverted', ['C05'], 'R05.e',
+  *(_MOVED + [(_SI, 're:\\Z', "\n\n" + _BUILD_DEF.replace("    if multi:\n", "    if not multi:\n"))]))
+B('c05b_moved_class_single_guard_wrong_branch', ['C05'], 'R05.e',
+  *(_MOVED + [(_SI, 're:\\Z', "\n\n" + _BUILD_CLASS.replace("    def _one(self, value):\n        if not value and self.optional:\n",
+                                                             "    def _one(self, value):\n        if not value or self.optional:\n"))]))
